@@ -68,6 +68,10 @@ def _cases(tier):
                 p.add(sc.Clef(staff=staff, sign=sign, line=line, octave_change=oc), t)
             for i, (s, e) in enumerate(measures):
                 p.add(sc.Measure(number=i + first_number), s, e)
+            # the signatures as they were asked for, kept apart from the objects (musical beats: the user's value for that signature, else
+            # the documented default - 2, 3, 4 for numerators 6, 9, 12 and the numerator for all others)
+            p._verif_tss = [(t, b_, bt, (musical or {}).get("%d/%d" % (b_, bt), {6: 2, 9: 3, 12: 4}.get(b_, b_))) for t, b_, bt in tss]
+            p._verif_kss = [(t, f5, -1 if mode in ("minor", -1) else 1) for t, f5, mode in kss]
             # the numbers the measures were given, kept apart from the objects
             p._verif_measure_numbers = {s: i + first_number for i, (s, e) in enumerate(measures)}
             for st in range(1, staves + 1):
@@ -93,6 +97,10 @@ def _cases(tier):
     out.append(("tablature_and_jianpu_clefs_third_staff_with_a_clef_only", mk(tss=[(0, 4, 4)], clefs=[(0, 1, "G", 2, 0), (0, 2, "TAB", 5, 0), (0, 3, "jianpu", 1, 0), (16, 1, "percussion", 2, 0), (16, 3, "none", 1, 0)],
                                                                               measures=[(0, 16), (16, 32)], note=(0, 32), staves=2)))
     out.append(("key_signature_with_mode_none", mk(tss=[(0, 4, 4)], kss=[(0, -7, "none"), (16, 3, "none")], measures=[(0, 16), (16, 32)], note=(0, 32))))
+    # modes given by their documented integer codes (-1 minor, 1 major), as the ks_mode column of a note array hands them out
+    out.append(("key_modes_given_as_integer_codes", mk(tss=[(0, 4, 4)], kss=[(0, -3, -1), (16, 2, 1), (24, 4, np.int32(-1))], measures=[(0, 16), (16, 32)], note=(0, 32))))
+    # numerators that are multiples of three beyond twelve: the documented default number of musical beats is the numerator
+    out.append(("fifteen_eight_and_eighteen_sixteen", mk(divs=4, tss=[(0, 15, 8), (30, 18, 16), (48, 21, 8)], measures=[(0, 30), (30, 48), (48, 90)], note=(0, 90), musical={})))
     out.append(("three_changes", mk(tss=[(0, 4, 4), (16, 6, 8), (28, 2, 2)], kss=[(0, 0, "major"), (16, 7, "major"), (28, -7, "minor")],
                                   clefs=[(0, 1, "G", 2, 0), (16, 1, "C", 3, 0), (20, 1, "G", 2, -1)], measures=[(0, 16), (16, 28), (28, 44)], note=(0, 44))))
     # rests that end exactly at a change of signature, that span one, and that begin at one
@@ -143,8 +151,8 @@ def bounded(b):
         part = mk()
         lo, hi = part.first_point.t, part.last_point.t
         pos = list(range(lo, hi + 3))
-        tss = sorted((t.start.t, t.beats, t.beat_type, t.musical_beats) for t in part.iter_all(sc.TimeSignature))
-        kss = sorted((k.start.t, k.fifths, -1 if k.mode in ("minor", -1) else 1) for k in part.iter_all(sc.KeySignature))
+        tss = sorted(getattr(part, "_verif_tss", None) or [(t.start.t, t.beats, t.beat_type, t.musical_beats) for t in part.iter_all(sc.TimeSignature)])
+        kss = sorted(getattr(part, "_verif_kss", None) or [(k.start.t, k.fifths, -1 if k.mode in ("minor", -1) else 1) for k in part.iter_all(sc.KeySignature)])
         clefs = sorted((c.start.t, c.staff, {"G": 0, "F": 1, "C": 2, "percussion": 3, "TAB": 4, "jianpu": 5, "none": 6}[c.sign], c.line, c.octave_change or 0) for c in part.iter_all(sc.Clef))
         given = getattr(part, "_verif_measure_numbers", {})
         meas = sorted((m.start.t, m.end.t, given.get(m.start.t, m.number)) for m in part.iter_all(sc.Measure))
